@@ -130,18 +130,25 @@ func (m *expirationMap[V]) cleanup(store store[V], policy *defaultPolicy[V], onE
 	}
 	m.lastCleanedBucketNum = currentBucketNum
 	m.Unlock()
+	verifObserve(vpSweepGrabbed, uint64(currentBucketNum), uint64(len(buckets)))
+	verifPoint(vpSweepGrabbed)
 
 	for _, keys := range buckets {
 		for key, conflict := range keys {
+			verifObserve(vpSweepKey, key, conflict)
+			verifPoint(vpSweepKey)
 			expr := store.Expiration(key)
 			// Sanity check. Verify that the store agrees that this key is expired.
 			if expr.After(now) {
 				continue
 			}
+			verifPoint(vpSweepChecked)
 
 			cost := policy.Cost(key)
 			policy.Del(key)
+			verifPoint(vpSweepPolicyDel)
 			_, value := store.Del(key, conflict)
+			verifPoint(vpSweepStoreDel)
 
 			if onEvict != nil {
 				onEvict(&Item[V]{Key: key,
